@@ -25,6 +25,12 @@ import (
 	"strings"
 )
 
+// maxExpandedNodes limits the total amount of nodes processed during import
+// expansion in a single file. Snippets that import themselves (or each other)
+// more than once double the tree on each pass, this makes sure we fail
+// with an error long before the process runs out of memory.
+const maxExpandedNodes = 1 << 18
+
 func (ctx *parseContext) expandImports(node Node, expansionDepth int) (Node, error) {
 	// Leave nil value as is because it is used as non-existent block indicator
 	// (vs empty slice - empty block).
@@ -35,6 +41,11 @@ func (ctx *parseContext) expandImports(node Node, expansionDepth int) (Node, err
 	newChildrens := make([]Node, 0, len(node.Children))
 	containsImports := false
 	for _, child := range node.Children {
+		ctx.expandedNodes++
+		if ctx.expandedNodes > maxExpandedNodes {
+			return node, NodeErr(child, "hit import expansion limit")
+		}
+
 		child, err := ctx.expandImports(child, expansionDepth+1)
 		if err != nil {
 			return node, err
